@@ -251,3 +251,32 @@ func (c *Ctx) rulesR6misc(only string, a *coreAnchors) {
 }
 
 var _ = token.NoPos
+
+// rulesR6delall: C20.delall
+func (c *Ctx) rulesR6delall() {
+	c.rule("C20.delall", "SRem (behind S.Delete and S.Delete1) removes a name from the list wherever it occurs: it does not go through a first-occurrence primitive (slicesWithout, or slices.Index followed by a single Delete). State lists may contain duplicates - S.Add and S.Unique exist to remove them - and 'Delete removes' must hold for such lists too")
+	f := c.fnOpt(pm + ":SRem")
+	if f == nil {
+		c.undecided("C20.delall: SRem not found")
+		return
+	}
+	bad := ""
+	var pos token.Pos = f.Pos()
+	visitWithClosures(f, func(ins ssa.Instruction) {
+		if ci, ok := ins.(ssa.CallInstruction); ok {
+			switch calleeName(ci.Common()) {
+			case "slicesWithout", "Index":
+				bad = calleeName(ci.Common())
+				pos = ins.Pos()
+			}
+		}
+	})
+	c.check(bad == "", "C20.delall", "SRem removes every occurrence", pos, "the removal goes through "+bad+", which finds the first occurrence only: S{A,B,A}.Delete1(A) keeps an A")
+	for _, m := range []string{"S.Delete", "S.Delete1"} {
+		g := c.fnOpt(pm + ":" + m)
+		if g == nil {
+			continue
+		}
+		c.check(len(c.sitesIn(g, funcKey(f))) >= 1, "C20.delall", m+" delegates to SRem", g.Pos(), "no call of SRem")
+	}
+}
